@@ -293,6 +293,10 @@ def _run_sharded(exe, lines, nshards=NPROC, timeout=3600, env=None, per_shard=20
     # whole programs): MW_IMPL_CASE_BUDGET = seconds per case; a shard that exceeds its budget is
     # replayed case by case with a short per-case limit, hanging cases answer TIMEOUT
     case_budget = float(os.environ.get("MW_IMPL_CASE_BUDGET", "0") or 0)
+    if not isinstance(exe, str):
+        # the extracted model (run through /bin/sh with an unlimited stack) is one to two orders of magnitude slower
+        # than the implementation: it gets its own, larger budget per case
+        case_budget = float(os.environ.get("MW_MODEL_CASE_BUDGET", "0") or 0) or case_budget * 4
 
     def work(i):
         try:
